@@ -204,6 +204,53 @@ def runH : Heap → List HOp → Heap × List (Except ErrKind (Option Nat))
       let r := runH h' rest
       (r.1, .ok out :: r.2)
 
+/-! ### `copy.copy`: pydicom's shallow copy shares the element table
+
+`copy.copy(ds)` makes a new Python object whose `__dict__` is a shallow copy of the original's: the attribute `_dict` (keyword ↦
+element) of the two objects is THE SAME dictionary.  Objects are therefore modelled as pointers into a list of element tables;
+`deepcopy` / pickle allocate a new table, `copy.copy` a new object on the old table. -/
+
+structure OStore where
+  /-- element tables -/
+  tables : List DS
+  /-- object ↦ index of its element table -/
+  objs : List Nat
+  deriving DecidableEq, Repr
+
+inductive SOp
+  | shallow (o : Nat)          -- copy.copy(<object o>)
+  | deep (o : Nat)             -- copy.deepcopy(<object o>)
+  | set (o : Nat) (k v : String)
+  | del (o : Nat) (k : String)
+
+/-- what object `o` reads -/
+def OStore.content (s : OStore) (o : Nat) : Option DS :=
+  match s.objs[o]? with
+  | none => none
+  | some t => s.tables[t]?
+
+def sstep (s : OStore) : SOp → OStore
+  | .shallow o => match s.objs[o]? with
+    | none => s
+    | some t => { s with objs := s.objs ++ [t] }
+  | .deep o => match s.content o with
+    | none => s
+    | some d => { tables := s.tables ++ [d], objs := s.objs ++ [s.tables.length] }
+  | .set o k v => match s.objs[o]?, s.content o with
+    | some t, some d => { s with tables := s.tables.set t (DS.set d k v) }
+    | _, _ => s
+  | .del o k => match s.objs[o]?, s.content o with
+    | some t, some d => { s with tables := s.tables.set t (DS.del d k) }
+    | _, _ => s
+
+def srun (s : OStore) (ops : List SOp) : OStore := ops.foldl sstep s
+
+/-- a dict entry whose key OBJECT was mutated after the insertion: the entry keeps the hash it was stored under -/
+def mutateKey {β : Type} (d : PyDict β) (i : Nat) (newKey : Obj) : PyDict β :=
+  match d[i]? with
+  | none => d
+  | some e => d.set i { e with key := newKey }
+
 /-! ### the four strings through a written file (no SpecificCharacterSet: pydicom's default repertoire, ISO 8859-1) -/
 
 /-- what the writer makes of a character: code points above 255 cannot be encoded in the default repertoire and become `?` -/
